@@ -357,4 +357,66 @@ theorem mem_logUpTo (n off T : Nat) (e : SwapCall) (he : e ∈ logUpTo n off T) 
   obtain ⟨m, hm, rfl⟩ := he
   exact ⟨t, List.mem_range.mp ht, m, List.mem_range.mp hm, rfl⟩
 
+/-! ### the two offsets are mirror images -/
+
+/-- time-and-space mirror of a callback invocation -/
+def mirror (n : Nat) (e : SwapCall) : SwapCall := (e.1, e.2.1, n - 2 - e.2.2.1, n - 1 - e.2.2.1)
+
+theorem reverse_range_eq (n : Nat) : (List.range n).reverse = (List.range n).map fun t => n - 1 - t := by
+  apply List.ext_getElem
+  · simp
+  · intro i h1 h2
+    simp at h1
+    simp [List.getElem_reverse]
+
+theorem entry_mirror (n t m : Nat) (ht : t < n) (hm : m < cnt n 1 t) :
+    cnt n 1 t = cnt n 0 (n - 1 - t) ∧
+    entry n 1 t m = mirror n (entry n 0 (n - 1 - t) (cnt n 0 (n - 1 - t) - 1 - m)) := by
+  have hc : cnt n 1 t = cnt n 0 (n - 1 - t) := by unfold cnt; omega
+  refine ⟨hc, ?_⟩
+  rw [entry_modes, entry_modes]
+  unfold mirror
+  simp only
+  unfold cnt at hm hc ⊢
+  unfold modeL modeR
+  refine Prod.ext ?_ (Prod.ext ?_ (Prod.ext ?_ ?_)) <;> simp only <;> (try split_ifs) <;> omega
+
+theorem layer_mirror (n t : Nat) (ht : t < n) :
+    (List.range (cnt n 1 t)).map (entry n 1 t) =
+      (((List.range (cnt n 0 (n - 1 - t))).map (entry n 0 (n - 1 - t))).reverse).map (mirror n) := by
+  have hc : cnt n 1 t = cnt n 0 (n - 1 - t) := by unfold cnt; omega
+  apply List.ext_getElem
+  · simp [hc]
+  · intro m h1 h2
+    simp only [List.length_map, List.length_range] at h1
+    rw [List.getElem_map, List.getElem_map, List.getElem_reverse, List.getElem_map]
+    simp only [List.getElem_range, List.length_map, List.length_range]
+    exact (entry_mirror n t m ht h1).2
+
+/-- the callback log of the network with `offset=True` is the time-and-space mirror image of the log
+with `offset=False` -/
+theorem log_mirror (n : Nat) : logUpTo n 1 n = ((logUpTo n 0 n).reverse).map (mirror n) := by
+  unfold logUpTo
+  rw [List.reverse_flatMap, List.map_flatMap, reverse_range_eq, List.flatMap_map]
+  apply List.flatMap_congr
+  intro t ht
+  have ht' : t < n := List.mem_range.mp ht
+  have e : n - 1 - (n - 1 - t) = t := by omega
+  have := layer_mirror n (n - 1 - t) (by omega)
+  rw [e] at this
+  simp only [Function.comp]
+  rw [layer_mirror n t ht']
+
+theorem swapNetwork_mirror (n : Nat) :
+    (swapNetwork n true).2 = ((swapNetwork n false).2.reverse).map (mirror n) := by
+  rw [swapNetwork_closed, swapNetwork_closed]
+  exact log_mirror n
+
+theorem swapNetwork_call_adjacent (n : Nat) (offset : Bool) (e : SwapCall)
+    (he : e ∈ (swapNetwork n offset).2) : e.2.2.2 = e.2.2.1 + 1 ∧ e.2.2.2 < n := by
+  rw [swapNetwork_closed] at he
+  obtain ⟨t, ht, m, hm, rfl⟩ := mem_logUpTo n offset.toNat n e he
+  obtain ⟨h1, h2, _⟩ := entry_ok n offset.toNat t m ht hm
+  exact ⟨h1, h2⟩
+
 end OFV.C14
